@@ -24,7 +24,7 @@ func suiteGet(tier string, seed uint64, model string) *Report {
 	r := NewRng(seed)
 	n := 30000
 	if tier == "thorough" {
-		n = 400000
+		n = 1600000
 	}
 	type cs struct {
 		path []Frag
@@ -121,7 +121,7 @@ func suiteScript(tier string, seed uint64, model string) *Report {
 	r := NewRng(seed)
 	n := 40000
 	if tier == "thorough" {
-		n = 500000
+		n = 2000000
 	}
 	type cs struct {
 		eq   *Eqn
